@@ -36,6 +36,12 @@ func VerifClientGet() {
 		rt.Assert(err != nil && !errors.Is(err, os.ErrNotExist) && b == nil, "C16/client-transport-error")
 		return
 	}
+	if resp.U[2] == 1 && resp.U[1] == 200 {
+		// the body could not be read: an error, and never "does not exist"
+		rt.Assert(err != nil && !errors.Is(err, os.ErrNotExist), "C16/client-read-failure-is-error")
+		rt.Cover(true, "client/read-failure")
+		return
+	}
 	switch resp.U[1] {
 	case 200:
 		rt.Assert(err == nil && rt.Eq(b, []byte(rt.Last("http.respBody"))), "C16/client-200-returns-body")
